@@ -4,6 +4,7 @@ import (
 	"context"
 	"encoding/hex"
 	"fmt"
+	"math"
 
 	"github.com/alephium/wormhole-fork/node/pkg/common"
 	"github.com/alephium/wormhole-fork/node/pkg/db"
@@ -81,6 +82,15 @@ func decodeEmitterAddress(emitterAddress string) (*vaa.Address, error) {
 	return &addr, nil
 }
 
+// decodeChainID rejects chain numbers that do not fit the 16-bit chain id of a VAA instead of wrapping them
+func decodeChainID(chain publicrpcv1.ChainID) (vaa.ChainID, error) {
+	n := chain.Number()
+	if n < 0 || n > math.MaxUint16 {
+		return 0, status.Error(codes.InvalidArgument, fmt.Sprintf("chain id out of range: %d", n))
+	}
+	return vaa.ChainID(n), nil
+}
+
 func (s *PublicrpcServer) GetSignedVAA(ctx context.Context, req *publicrpcv1.GetSignedVAARequest) (*publicrpcv1.GetSignedVAAResponse, error) {
 	if req.MessageId == nil {
 		return nil, status.Error(codes.InvalidArgument, "no message ID specified")
@@ -91,10 +101,19 @@ func (s *PublicrpcServer) GetSignedVAA(ctx context.Context, req *publicrpcv1.Get
 		return nil, err
 	}
 
+	emitterChain, err := decodeChainID(req.MessageId.EmitterChain)
+	if err != nil {
+		return nil, err
+	}
+	targetChain, err := decodeChainID(req.MessageId.TargetChain)
+	if err != nil {
+		return nil, err
+	}
+
 	b, err := s.db.GetSignedVAABytes(vaa.VAAID{
-		EmitterChain:   vaa.ChainID(req.MessageId.EmitterChain.Number()),
+		EmitterChain:   emitterChain,
 		EmitterAddress: *emitterAddress,
-		TargetChain:    vaa.ChainID(req.MessageId.TargetChain.Number()),
+		TargetChain:    targetChain,
 		Sequence:       req.MessageId.Sequence,
 	})
 
@@ -128,12 +147,21 @@ func (s *PublicrpcServer) GetNonGovernanceVAABatch(ctx context.Context, req *pub
 		return nil, err
 	}
 
+	emitterChain, err := decodeChainID(req.EmitterChain)
+	if err != nil {
+		return nil, err
+	}
+	targetChain, err := decodeChainID(req.TargetChain)
+	if err != nil {
+		return nil, err
+	}
+
 	entries := make([]*publicrpcv1.GetNonGovernanceVAABatchResponse_Entry, 0)
 	for _, sequence := range req.Sequences {
 		b, err := s.db.GetSignedVAABytes(vaa.VAAID{
-			EmitterChain:   vaa.ChainID(req.EmitterChain.Number()),
+			EmitterChain:   emitterChain,
 			EmitterAddress: *emitterAddress,
-			TargetChain:    vaa.ChainID(req.TargetChain.Number()),
+			TargetChain:    targetChain,
 			Sequence:       sequence,
 		})
 		if err != nil {
